@@ -25,7 +25,7 @@ class C16(Prop):
         self.py = sys.executable
 
     def gen(self, rng, tier):
-        n = 14 if tier == 'quick' else 300
+        n = 14 if tier == 'quick' else 120
         for i in range(n):
             nw = rng.choice([1, 1, 2, 3, 4, 8, 16])
             nt = rng.choice([0, 1, 2, 3, 5, 8, 12, 20, 40] if tier == 'quick' else [0, 1, 3, 8, 20, 40, 100, 200])
@@ -67,7 +67,9 @@ class C16(Prop):
                 os.remove(f)
         json.dump(case, open(cf, 'w'))
         total = sum(t['dur'] for t in case['tasks'])
-        timeout = 20 + 4 * total
+        # every raising task kills a worker that has to be detected (0.5 s poll) and replaced (a fork under load)
+        n_raise = sum(1 for t in case['tasks'] if t['kind'] == 'raise')
+        timeout = 60 + 4 * total + 4 * n_raise + 0.5 * len(case['tasks'])
         env = dict(os.environ)
         env['MTFIT_REPO'] = REPO
         p = subprocess.Popen([self.py, os.path.join(VERIF, 'harness', 'c16_runner.py'), cf, of, lf], stdout=subprocess.DEVNULL,
